@@ -82,6 +82,7 @@ func (m *Module) enableInlining() {
 	if m.anchors == nil {
 		m.anchors = map[*ssa.Function]bool{}
 	}
+	m.findDeferClosures()
 	inModule := map[*ssa.Function]bool{}
 	for _, fn := range m.Funcs {
 		inModule[fn] = true
@@ -193,6 +194,55 @@ func (m *Module) enableInlining() {
 	}
 }
 
+// findDeferClosures registers deferred function literals (`defer func() {...}()`)
+// that no rule anchors at: their free variables are the enclosing function's
+// variables, so the body can be spliced where the deferred call runs.
+func (m *Module) findDeferClosures() {
+	m.deferClosure = map[*ssa.Defer]*ssa.Function{}
+	m.deferSite = map[*ssa.Function]*ssa.Defer{}
+	for _, fn := range m.Funcs {
+		for _, b := range fn.Blocks {
+			for _, in := range b.Instrs {
+				d, ok := in.(*ssa.Defer)
+				if !ok || d.Call.IsInvoke() {
+					continue
+				}
+				mc, ok := d.Call.Value.(*ssa.MakeClosure)
+				if !ok {
+					continue
+				}
+				cl, ok := mc.Fn.(*ssa.Function)
+				if !ok || m.anchors[cl] || len(cl.Blocks) == 0 || len(cl.Params) != len(d.Call.Args) || len(cl.FreeVars) != len(mc.Bindings) {
+					continue
+				}
+				if refs := mc.Referrers(); refs == nil || len(*refs) != 1 {
+					continue
+				}
+				hasDefer := false
+				for _, cb := range cl.Blocks {
+					for _, ci := range cb.Instrs {
+						switch ci.(type) {
+						case *ssa.Defer, *ssa.RunDefers:
+							hasDefer = true
+						}
+					}
+				}
+				if hasDefer || cl.Recover != nil {
+					continue
+				}
+				m.deferClosure[d] = cl
+				m.deferSite[cl] = d
+				for i, fv := range cl.FreeVars {
+					replaceUses(fv, mc.Bindings[i])
+				}
+				for i, p := range cl.Params {
+					replaceUses(p, d.Call.Args[i])
+				}
+			}
+		}
+	}
+}
+
 // replaceUses makes every instruction that uses old use new instead. For a
 // helper with one call site the parameter *is* the argument and the call's
 // value *is* the operand of the only return, so the substitution is an
@@ -271,6 +321,10 @@ func (m *Module) owner(fn *ssa.Function) *ssa.Function {
 	for i := 0; i < 16 && fn != nil; i++ {
 		call, ok := m.helperSite[fn]
 		if !ok {
+			if d, isDef := m.deferSite[fn]; isDef {
+				fn = d.Parent()
+				continue
+			}
 			return fn
 		}
 		fn = call.Parent()
@@ -283,9 +337,13 @@ func (m *Module) owner(fn *ssa.Function) *ssa.Function {
 func (m *Module) scanFuncs() []*ssa.Function {
 	var out []*ssa.Function
 	for _, fn := range m.Funcs {
-		if _, isHelper := m.helperSite[fn]; !isHelper {
-			out = append(out, fn)
+		if _, isHelper := m.helperSite[fn]; isHelper {
+			continue
 		}
+		if _, isDef := m.deferSite[fn]; isDef {
+			continue
+		}
+		out = append(out, fn)
 	}
 	return out
 }
